@@ -81,7 +81,7 @@ Print Assumptions kernel_conditions_are_history_level.
 (* REFUSED TRANSITIONS (entry guard of the target frame closed).  A transition whose needs all
    hold but whose target is refused is skipped without any effect ... *)
 Theorem refused_transition_is_skipped : forall p s fi t r,
-  needs_true s fi t = true -> guard_ok s (frame_of p (t_far t)) = false ->
+  needs_true s fi t = true -> guard_ok s (t_far t) (frame_of p (t_far t)) = false ->
   pick p s fi (t :: r) = pick p s fi r.
 Proof. exact refused_is_skipped_lemma. Qed.
 Print Assumptions refused_transition_is_skipped.
@@ -110,6 +110,33 @@ Print Assumptions pending_update_survives_refusal.
 Theorem stamps_well_formed : forall d h, stamp_wf (run d h).
 Proof. exact run_stamp_wf. Qed.
 Print Assumptions stamps_well_formed.
+
+(* `LET` CLAUSES WITH MARKER NEEDS.  The transit marker of a marker need written in a `let` (entry
+   guard) is never executed: the transit markers run in a tick are exactly those of the needs of
+   the transition taken from the active frame ... *)
+Theorem transit_marks_come_only_from_the_taken_transition : forall p first s pre post m,
+  In (KTransitMark m) (snd (tick p first s pre post)) ->
+  exists t n, In t (f_trans (frame_of p (k_active s))) /\ In n (t_needs t) /\
+              m = resolve_need (k_active s) n.
+Proof. exact transit_marks_origin_lemma. Qed.
+Print Assumptions transit_marks_come_only_from_the_taken_transition.
+
+(* ... so on a mark that no transition need shares (its history has no transit reset) `is updated`
+   means: written while running, and never entry-reset or last written in or after the tick of the
+   last entry reset.  It is never consumed by being satisfied: without `in frame` it latches for
+   ever after the first write; with `in frame` it holds until the named frame is entered again
+   in a later tick than the last write. *)
+Theorem updated_without_transit_reset : forall d h, no_transit h ->
+  need_update (run d h) =
+  match last_tick (filter is_write (stamped 0 h)) with
+  | None => false
+  | Some w => match last_tick (filter (is_reset KUpd) (stamped 0 h)) with
+              | None => true
+              | Some r => Nat.leb r w
+              end
+  end.
+Proof. exact updated_without_transit_lemma. Qed.
+Print Assumptions updated_without_transit_reset.
 
 (* ---- non-vacuity -------------------------------------------------------------------- *)
 (* F0: go F1 if x is updated in frame ; F1: go F0 if x is updated by m.  External write after
@@ -146,7 +173,7 @@ Example refused_then_taken :
   let n0 := {| n_kind := KUpd; n_share := 1; n_in := None; n_by := None |} in
   let p := [ {| f_guard := None; f_enter := []; f_recur := []; f_exit := [];
                 f_trans := [ {| t_far := 1; t_needs := [n0] |} ] |};
-             {| f_guard := Some (3%Z, 3%Z); f_enter := []; f_recur := []; f_exit := []; f_trans := [] |} ] in
+             {| f_guard := Some (GCmp 3 3); f_enter := []; f_recur := []; f_exit := []; f_trans := [] |} ] in
   run_prog p [(1%Z, [(0%Z, VInt 0)]); (3%Z, [(3%Z, VInt 0)])]
     [([], [(1%Z, 0%Z, VInt 5)]); ([], []); ([], []); ([], [(3%Z, 3%Z, VInt 1)]); ([], []); ([], [])]
   = [0; 0; 0; 0; 1; 1].
